@@ -258,7 +258,7 @@ fn gen_line(r: &mut Rng, allow_non_utf8: bool) -> Vec<u8> {
         85..=91 => {
             // long line; code-like start so that it is picked as function context
             let mut s = String::from(*r.pick(&["fn ", "static void ", "class ", "", "def "]));
-            let target = *r.pick(&[70usize, 76, 77, 78, 79, 80, 81, 82, 90, 130, 300, 1200, 5000]);
+            let target = *r.pick(&[70usize, 76, 77, 78, 79, 80, 81, 82, 83, 90, 130, 300, 300, 1200, 1200, 6000]);
             while s.len() < target {
                 match r.below(6) {
                     0 => s.push(' '),
@@ -822,7 +822,7 @@ fn tree_case(run: &mut Run, repo: &git2::Repository, id: &str, r: &mut Rng) {
     }
 
     // ---- file by file
-    let mut budget = Budget(60_000);
+    let mut budget = Budget(24_000);
     for f in &files {
         let fh = FileHeader::from(*f);
         let ftext = match call(|| f.to_unified_string()) {
@@ -1143,7 +1143,23 @@ fn rand_mods(r: &mut Rng, hh: &HunkHeader, consistent: bool) -> Vec<Modification
 
 fn codec_case(run: &mut Run, id: &str, r: &mut Rng) {
     run.eval();
-    match r.below(12) {
+    match r.below(13) {
+        12 => {
+            // str::trim_end (Unicode White_Space), which the encoder used before the fix
+            let mut l = String::from_utf8_lossy(&gen_line(r, false)).to_string();
+            for _ in 0..r.below(4) {
+                l.push_str(pk(r, TRAIL));
+            }
+            if r.bool() {
+                l.push('\n');
+            }
+            if r.chance(1, 6) {
+                l.push_str(pk(r, &["\u{2000}", "\u{200a}", "\u{200b}", "\u{2029}", "\u{180e}", "\u{feff}", "\u{1f}", "\u{1c}", "\u{e2}\u{80}"]));
+            }
+            let t = l.trim_end().to_string();
+            run.case(id, format!("KTrimEnd {}", coq_bytes(l.as_bytes())), format!("(OBytes (Ok {}))", coq_bytes(t.as_bytes())));
+            run.tally(if t.len() < l.len() { "corr:trim-end:trimmed" } else { "corr:trim-end:unchanged" });
+        }
         0 => {
             let s = gen_num(r);
             let got: Option<u32> = s.parse::<u32>().ok();
@@ -1364,7 +1380,7 @@ fn main() {
     let seed = run.args.seed;
     let tmp = tempfile::tempdir().unwrap();
     let repo = git2::Repository::init_bare(tmp.path()).unwrap();
-    let n0 = run.args.count(700, 12000);
+    let n0 = run.args.count(260, 2500);
     for i in 0..n0 {
         let id = format!("0:{}", i);
         if !run.args.wants(&id) {
@@ -1373,7 +1389,7 @@ fn main() {
         let mut r = Rng::for_case(seed, 0, i);
         tree_case(&mut run, &repo, &id, &mut r);
     }
-    let n1 = run.args.count(2500, 40000);
+    let n1 = run.args.count(1300, 12000);
     for i in 0..n1 {
         let id = format!("1:{}", i);
         if !run.args.wants(&id) {
@@ -1382,6 +1398,6 @@ fn main() {
         let mut r = Rng::for_case(seed, 1, i);
         codec_case(&mut run, &id, &mut r);
     }
-    run.shard_size(250);
+    run.shard_size(400);
     run.finish();
 }
